@@ -55,7 +55,7 @@ ROUTE = {
     "sesspap": "sess", "sesschap": "sess", "fzsess": "sess", "fzseq": "sess", "bkdhcp6": "sess", "bkrakick": "sess", "bkevd6": "sess", "bkevra": "sess", "bkevl2": "ipoe", "bkpadr": "sess",
     "bkl2gw": "ipoe",
     "attr80": "radius", "fzrad": "radius", "radreply": "radius", "radreqauth": "radius", "radma": "radius", "coaattrs": "radius", "radex": "radius", "radparse": "radius",
-    "ipoeopts": "ipoe", "l2ppp": "il2tp", "fzipoe": "ipoe",
+    "ipoeopts": "ipoe", "l2ppp": "il2tp", "fzipoe": "ipoe", "l2dg": "il2tp",
     "fzgopkt": "shm",
 }
 MODELLED = sorted(k for k in ROUTE if not k.startswith("fz") and not k.startswith("bk") and not (k.startswith("bld") and k not in ("papbld", "chapbld")) and k != "radex")
@@ -735,6 +735,45 @@ def gen_cases(rng, tier, budget):
     family(rng, tier, gen_l2hdr, nv, 2 * nm, lambda b: (add(case("l2hdr", [], b)), add(case("l2v3", [], b[:rng.randint(0, 4)]))), all16=True)
     family(rng, tier, gen_avps, nv, 2 * nm, lambda b: add(case("l2avp", [], b)), all16=True)
 
+    # --- one L2TP datagram through internal/l2tp Dispatch: SCCRQ extraction, control routing, data path to a PPP session ---
+    def l2avp(ty, v, m=1, vid=0):
+        return be16((m << 15) | (6 + len(v))) + be16(vid) + be16(ty) + v
+    def l2ctl(avps, tid=0, sid=0, ns=0, nr=0, ver=2, flags=0xc800):
+        body = b"".join(avps)
+        return be16(flags | ver) + be16(12 + len(body)) + be16(tid) + be16(sid) + be16(ns) + be16(nr) + body
+    def l2data(tid, sid, payload, hdlc=False, withlen=False):
+        h = be16((0x4000 if withlen else 0) | 2) + (be16(6 + 2 + len(payload) + (2 if hdlc else 0)) if withlen else b"") + be16(tid) + be16(sid)
+        return h + (b"\xff\x03" if hdlc else b"") + payload
+    AUTH = b"lac1"
+    def l2dg_emit(b):
+        add(case("l2dg", [], b, AUTH))
+    for host in (AUTH, b"other", b"", b"lac1x"):
+        for asg in (be16(4242), be16(0), b"\x07", b"", b"\x00\x01\x02", None):
+            for extra in ([], [l2avp(11, rb(rng, 16))], [l2avp(10, be16(8))], [l2avp(10, b"\x08")], [l2avp(2, b"\x01\x00"), l2avp(8, b"vendor")]):
+                avps = [l2avp(0, be16(1)), l2avp(7, host)] + ([l2avp(9, asg)] if asg is not None else []) + extra
+                l2dg_emit(l2ctl(avps))
+    for mt in list(range(0, 17)) + [0xffff]:
+        l2dg_emit(l2ctl([l2avp(0, be16(mt)), l2avp(7, AUTH), l2avp(9, be16(5))]))
+        l2dg_emit(l2ctl([l2avp(0, be16(mt)[:1]), l2avp(7, AUTH), l2avp(9, be16(5))]))
+        l2dg_emit(l2ctl([l2avp(7, AUTH), l2avp(0, be16(mt)), l2avp(9, be16(5))]))
+    l2dg_emit(l2ctl([]))                                             # ZLB
+    l2dg_emit(l2ctl([l2avp(0, be16(1)), l2avp(7, AUTH), l2avp(9, be16(5))], ver=3))
+    for (tid, sid) in ((7, 9), (7, 8), (6, 9), (0, 0)):
+        for hd in (False, True):
+            for wl in (False, True):
+                for proto, fr in ((0xc021, ppp_frame(9, 1, b"\x01\x02\x03\x04")[0]), (0xc023, ppp_frame(1, 2, gen_pap(rng)[0])[0]),
+                                  (0xc223, ppp_frame(2, 3, gen_chap(rng)[0])[0]), (0x0021, rb(rng, 20)), (0x1234, ppp_frame(1, 1, b"")[0]),
+                                  (0xc021, b"\x01\x01\x00\x02")):
+                    l2dg_emit(l2data(tid, sid, be16(proto) + fr, hd, wl))
+    family(rng, tier, lambda r: (l2ctl([l2avp(0, be16(r.choice([1, 1, 2, 6, 10]))), l2avp(7, r.choice([AUTH, b"x"])), l2avp(9, rb(r, r.choice([2, 2, 1, 0])))] +
+                                       [l2avp(r.choice([2, 3, 10, 11, 8]), rb(r, r.choice([0, 2, 4])))] * r.randrange(2)),
+                                 [(2, 2), (12, 2), (20, 2)]),
+           nv // 2, nm, l2dg_emit, nsweep_quick=2)
+    family(rng, tier, lambda r: (l2data(7, 9, be16(r.choice([0xc021, 0xc023, 0xc223, 0x8021])) + ppp_frame(r.choice([1, 2, 8, 9, 10]), 1, rb(r, r.randint(0, 12)))[0],
+                                        r.random() < 0.5, r.random() < 0.5), [(0, 2)]),
+           nv // 2, nm // 2, l2dg_emit, nsweep_quick=2)
+    for s2 in short_strings("quick", False):
+        l2dg_emit(s2)
     # --- DHCPv6 ----------------------------------------------------------------------------------------------------------
     for s in short_strings(tier, False):
         add(case("d6msg", [], s))
